@@ -196,12 +196,19 @@ impl SubSocket {
 impl Socket for SubSocket {
     fn with_options(options: SocketOptions) -> Self {
         let fair_queue = FairQueue::new(true);
+        let backend = Arc::new(SubSocketBackend::with_options(
+            Some(fair_queue.inner()),
+            SocketType::SUB,
+            options,
+        ));
+        let weak_backend = Arc::downgrade(&backend);
+        fair_queue.on_stream_end(move |peer_id| {
+            if let Some(backend) = weak_backend.upgrade() {
+                backend.peer_disconnected(peer_id);
+            }
+        });
         Self {
-            backend: Arc::new(SubSocketBackend::with_options(
-                Some(fair_queue.inner()),
-                SocketType::SUB,
-                options,
-            )),
+            backend,
             fair_queue,
             binds: HashMap::new(),
         }
